@@ -1,0 +1,84 @@
+//go:build verif
+
+// Verification hooks (add-only, compiled only with -tags verif): re-export the unexported
+// Fiat-Crypto primitives so that an out-of-module harness can run them on chosen limbs.
+package fiat
+
+// VerifFieldOp runs one primitive of the coordinate field (mod p) on raw limbs.
+func VerifFieldOp(op string, a, b *[4]uint64) (out [4]uint64) {
+	x := (*sm2MontgomeryDomainFieldElement)(a)
+	y := (*sm2MontgomeryDomainFieldElement)(b)
+	o := (*sm2MontgomeryDomainFieldElement)(&out)
+	switch op {
+	case "mul":
+		sm2Mul(o, x, y)
+	case "square":
+		sm2Square(o, x)
+	case "add":
+		sm2Add(o, x, y)
+	case "sub":
+		sm2Sub(o, x, y)
+	case "opp":
+		sm2Opp(o, x)
+	case "frommont":
+		sm2FromMontgomery((*sm2NonMontgomeryDomainFieldElement)(&out), x)
+	case "tomont":
+		sm2ToMontgomery(o, (*sm2NonMontgomeryDomainFieldElement)(a))
+	case "one":
+		sm2SetOne(o)
+	case "invert":
+		sm2FermatInvert_FiatAC(o, x)
+	case "selectznz0":
+		sm2Selectznz(&out, 0, a, b)
+	case "selectznz1":
+		sm2Selectznz(&out, 1, a, b)
+	default:
+		panic("verif: unknown field op " + op)
+	}
+	return
+}
+
+// VerifScalarOp runs one primitive of the scalar field (mod n) on raw limbs.
+func VerifScalarOp(op string, a, b *[4]uint64) (out [4]uint64) {
+	x := (*sm2ScalarMontgomeryDomainFieldElement)(a)
+	y := (*sm2ScalarMontgomeryDomainFieldElement)(b)
+	o := (*sm2ScalarMontgomeryDomainFieldElement)(&out)
+	switch op {
+	case "mul":
+		sm2ScalarMul(o, x, y)
+	case "square":
+		sm2ScalarSquare(o, x)
+	case "add":
+		sm2ScalarAdd(o, x, y)
+	case "sub":
+		sm2ScalarSub(o, x, y)
+	case "opp":
+		sm2ScalarOpp(o, x)
+	case "frommont":
+		sm2ScalarFromMontgomery((*sm2ScalarNonMontgomeryDomainFieldElement)(&out), x)
+	case "tomont":
+		sm2ScalarToMontgomery(o, (*sm2ScalarNonMontgomeryDomainFieldElement)(a))
+	case "one":
+		sm2ScalarSetOne(o)
+	case "invert":
+		sm2ScalarFermatInvert_FiatAC(o, x)
+	case "selectznz0":
+		sm2ScalarSelectznz(&out, 0, a, b)
+	case "selectznz1":
+		sm2ScalarSelectznz(&out, 1, a, b)
+	default:
+		panic("verif: unknown scalar op " + op)
+	}
+	return
+}
+
+func VerifFieldToBytes(a *[4]uint64) (out [32]uint8)   { sm2ToBytes(&out, a); return }
+func VerifFieldFromBytes(a *[32]uint8) (out [4]uint64) { sm2FromBytes(&out, a); return }
+func VerifScalarToBytes(a *[4]uint64) (out [32]uint8)  { sm2ScalarToBytes(&out, a); return }
+func VerifScalarFromBytes(a *[32]uint8) (out [4]uint64) {
+	sm2ScalarFromBytes(&out, a)
+	return
+}
+
+// VerifScalarRaw exposes / sets the Montgomery limbs of a scalar element.
+func (e *SM2ScalarElement) VerifRaw() *[4]uint64 { return (*[4]uint64)(&e.x) }
